@@ -649,3 +649,55 @@ func H_C09_map_struct_map() {
 	c.checkLeaf(k2, b, "", NoOperation, "C09.map-struct-map.inner-slice-of-maps-value")
 	verifReach("C09.map-struct-map.ok")
 }
+
+// ---- tag spellings: an unrecognised classification is protected whatever else its tag says ----------------------
+
+type pSpell struct {
+	A string   `class:"Secret,bogus"`
+	B string   `class:"private,"`
+	C string   `class:"SENSITIVE,none"`
+	D string   `class:"x,redact"`
+	E []string `class:"Secret,nothing"`
+	F string   `class:",encrypt"`
+	G string   `class:"secret,"`
+	H string   `class:"public,redact"`
+}
+
+func H_C09_tag_spellings() {
+	c := symEnv()
+	in := &pSpell{A: nondetString(), B: nondetString(), C: nondetString(), D: nondetString(), E: []string{nondetString()},
+		F: nondetString(), G: nondetString(), H: nondetString()}
+	snap := *in
+	e0 := in.E[0]
+	e := newEvent(in)
+	out, err := c.ef.Process(context.Background(), e)
+	verifAssert(in.A == snap.A && in.B == snap.B && in.C == snap.C && in.D == snap.D && in.E[0] == e0 && in.F == snap.F &&
+		in.G == snap.G && in.H == snap.H, "C10.tag-spellings.original-untouched")
+	if c.o.allNone() || (c.w == nil && c.o.needsWrapper()) {
+		return
+	}
+	if err != nil {
+		verifAssert(out == nil, "C09.tag-spellings.error-forwards-nothing")
+		return
+	}
+	if out == nil {
+		return
+	}
+	op, ok := out.Payload.(*pSpell)
+	verifAssert(ok && op != in, "C10.tag-spellings.same-dynamic-type-distinct-object")
+	if !ok {
+		return
+	}
+	c.checkLeaf(op.A, snap.A, "Secret", NoOperation, "C09.tag-spellings.unknown-class-unknown-op")
+	c.checkLeaf(op.B, snap.B, "private", NoOperation, "C09.tag-spellings.unknown-class-empty-op")
+	c.checkLeaf(op.C, snap.C, "SENSITIVE", NoOperation, "C09.tag-spellings.upper-case-class")
+	c.checkLeaf(op.D, snap.D, "x", NoOperation, "C09.tag-spellings.unknown-class-known-op")
+	verifAssert(len(op.E) == 1, "C10.tag-spellings.slice-length-kept")
+	if len(op.E) == 1 {
+		c.checkLeaf(op.E[0], e0, "Secret", NoOperation, "C09.tag-spellings.unknown-class-slice")
+	}
+	c.checkLeaf(op.F, snap.F, "", NoOperation, "C09.tag-spellings.empty-class")
+	c.checkLeaf(op.G, snap.G, "secret", NoOperation, "C09.tag-spellings.known-class-empty-op")
+	c.checkLeaf(op.H, snap.H, "public", NoOperation, "C09.tag-spellings.public")
+	verifReach("C09.tag-spellings.checked")
+}
